@@ -149,6 +149,12 @@ def worker(job):
     else:
         ex = H.explore_witnesses(run, ws, A)
     viol = []
+    validated, verr = 0, []
+    for pi, p in enumerate(ex.paths):
+        if p.witness is not None and pi < 2:
+            n, bad = H.validate_against_impl(spec, p, dict(use_numba=job["numba"], mode="hydraulics"), is_gas)
+            validated += 1 if n else 0
+            verr += ["encoding validation, path %d: %s" % (pi, b) for b in bad[:3]]
     for pi, p in enumerate(ex.paths):
         if p.exc is not None:
             if not _expected_exc(p.exc):
@@ -188,7 +194,7 @@ def worker(job):
                                         "values": model_inputs(m, names)}})
             elif r == 'unknown':
                 job.setdefault("_inconclusive", []).append("junction %s path %d" % (j, pi))
-    return finish_worker(job, ex, viol)
+    return finish_worker(job, ex, viol, errors=verr, validated=validated)
 
 
 def _expected_exc(e):
